@@ -85,6 +85,8 @@ class _Sim:
         self.quiet_reads = {}
         self.io_steps = 0
         self.crash_at = spec.get("crash_at")
+        self.interrupt_at = spec.get("interrupt_at")
+        self.interrupted = False
         self.crashed = False
         self.faults = [dict(f, fired=0, seen=0) for f in spec.get("faults", [])]
         self.fault_log = []
@@ -125,6 +127,11 @@ class _Sim:
     def io_step(self, what):
         """A point at which the simulated process can be killed (kill -9)."""
         self.io_steps += 1
+        if self.interrupt_at is not None and self.io_steps == self.interrupt_at and not self.interrupted:
+            # Ctrl-C (SIGINT) delivered while the program is inside this I/O call: Python raises KeyboardInterrupt there
+            self.interrupted = True
+            self.record("sim.interrupt", at=what, step=self.io_steps)
+            raise KeyboardInterrupt()
         if self.crash_at is not None and self.io_steps == self.crash_at:
             self.crashed = True
             self.record("sim.crash", at=what, step=self.io_steps)
@@ -272,7 +279,7 @@ class _Sim:
                 return fobj
             wf = sim.match_fault("write", cls, m) if writing else None
             rf = sim.match_fault("read", cls, m) if not writing else None
-            track = writing and sim.crash_at is not None
+            track = writing and (sim.crash_at is not None or sim.interrupt_at is not None)
             if wf is None and rf is None and not track:
                 return fobj
             return _FileProxy(sim, fobj, cls, ab, wf, rf)
@@ -368,6 +375,7 @@ class _Sim:
         result = {
             "exit": code,
             "crashed": self.crashed,
+            "interrupted": self.interrupted,
             "events": self.events,
             "quiet_reads": self.quiet_reads,
             "io_steps": self.io_steps,
@@ -928,12 +936,14 @@ def main():
                 pass
             code = 1
     except BaseException as exc:  # pylint: disable=broad-except
-        import traceback  # pylint: disable=import-outside-toplevel
-
-        sim.armed = False
-        traceback.print_exc()
+        # an exception that reaches the top of the interpreter: sys.excepthook is called (under the hook: a crash reporter installed by
+        # the program is part of the run), the exit status is 1 (130 after Ctrl-C, as the shell reports it)
         py_exc = "%s: %s" % (type(exc).__name__, exc)
-        code = 1
+        code = 130 if isinstance(exc, KeyboardInterrupt) else 1
+        try:
+            sys.excepthook(type(exc), exc, exc.__traceback__)
+        except BaseException as exc2:  # pylint: disable=broad-except
+            sys.stderr.write("Error in sys.excepthook: %s: %s\n" % (type(exc2).__name__, exc2))
     # what a real interpreter does between the end of main and process exit, still under the hook: join non-daemon threads, run
     # atexit handlers (a cache flushed "on exit", a report written from an atexit hook ... must be seen by the monitors too)
     sim.armed = True
